@@ -21,7 +21,7 @@ ID = "C12"
 LEVEL = "model_checking"
 RULE = (
     "configurations: target-host lists {[local], [local, r1], [r1, r2], [r1:9200, r1:9201], [local:9200, local:9201], [local, r1:9200, "
-    "r1:9201], [local, r1, local], [r1, r2, r1]} x {no fault, launcher fails on each host, a member daemon is shut down during start-up (any time before its nodes "
+    "r1:9201], [local, r1, local], [r1, r2, r1]} x {no fault, launcher fails on each host, provisioning fails for the last node of a multi-node host, a member daemon is shut down during start-up (any time before its nodes "
     "have started: listeners get the convention update, its actors die, their parents get ChildActorExited, later creations abort)} x {a non-target daemon / a daemon without "
     "ip capability also joins} x preserve-install {off, on} plus externally provisioned clusters; per configuration ALL reachable "
     "states: transitions = deliver the head of any sender/receiver channel | fire any pending timer | a remote daemon joins | the departure. "
@@ -79,6 +79,9 @@ class StubProvisioner:
     def prepare(self, binaries):
         from esrally.mechanic import provisioner
 
+        if (self.group, self.idx) in _S.get("fail_prepare", ()):
+            self.calls.log.append(("prepare-failed", self.group, self.idx))
+            raise RuntimeError(f"injected provisioning failure for node {self.idx} on {self.group}")
         self.calls.log.append(("prepare", self.group, self.idx))
         return provisioner.NodeConfiguration("tar", None, False, self.group[0], f"n{self.idx}", f"/x/{self.group}/{self.idx}", f"/x/{self.group}/{self.idx}/install", [f"/x/{self.group}/{self.idx}/data"])
 
@@ -191,6 +194,8 @@ def run_config(cfgspec, ch, res):
     groups = groups_of(hosts)
     _S["calls"] = Calls()
     _S["fail_groups"] = {fault[1]} if fault and fault[0] == "launch-fails" else set()
+    # provisioning fails for the LAST node of a host that runs several nodes (the earlier ones are installed already)
+    _S["fail_prepare"] = {(fault[1], groups_of(HOST_LISTS[hname])[fault[1]][-1])} if fault and fault[0] == "prepare-fails" else set()
     cfg = make_cfg(hosts, preserve)
     CLOCK.start(now=0.0, sleep_mode="error")
     sim = actorsim.ActorSim(ch, horizon=10_000.0, max_steps=400)
@@ -289,7 +294,7 @@ def run_config(cfgspec, ch, res):
     calls = _S["calls"].log
     rc = env["rc"]
     # a departure only counts as a start-up fault if the Dispatcher was still waiting for daemons when it learnt about it
-    faulty = bool(fault) and (fault[0] == "launch-fails" or env["departed"])
+    faulty = bool(fault) and (fault[0] in ("launch-fails", "prepare-fails") or env["departed"])
     gone_ip = fault[1] if fault and fault[0] == "daemon-departs" and env["departed"] else None
     late_departure = False
     if v is None and status == "step-limit":
@@ -327,6 +332,14 @@ def run_config(cfgspec, ch, res):
                 if len(cl) != len(ids) or any(c[2] != bool(preserve) for c in cl):
                     v = ("cleanup", f"node group {g} with {len(ids)} nodes: cleanup calls {cl}, preserve={preserve}")
                     break
+            if v is None and fault and fault[0] == "prepare-fails":
+                # nodes that were installed before the failure must not be left behind on the host
+                for c in calls:
+                    if c[0] == "prepare" and c[1] == fault[1]:
+                        cl = [x for x in calls if x[0] == "cleanup" and x[1] == f"/x/{c[1]}/{c[2]}/install"]
+                        if len(cl) != 1 or cl[0][2] != bool(preserve):
+                            v = ("installed-node-not-cleaned-up", f"node {c[2]} on {c[1]} was installed before provisioning of a later node failed; cleanup calls for it: {cl}; rc={rc}")
+                            break
             if v is None and len([c for c in calls if c[0] == "start"]) != len({c[1] for c in calls if c[0] == "start"}):
                 v = ("started-twice", f"{[c for c in calls if c[0] == 'start']}")
     res.case(
@@ -352,6 +365,7 @@ def configs(tier):
         groups = list(groups_of(hosts))
         remotes = sorted({ip for ip, _ in hosts if ip != LOCAL})
         faults = [None] + [("launch-fails", g) for g in groups] + [("daemon-departs", r) for r in remotes[:1]]
+        faults += [("prepare-fails", g) for g in groups if len(groups_of(hosts)[g]) > 1]
         for fault in faults:
             for extra in ([None, "other", "noip"] if remotes else [None]):
                 if extra and fault and fault[0] == "launch-fails" and tier == "quick":
